@@ -75,6 +75,11 @@ CHECKS = {
     technique="TLA+ big-step semantics of SDK host programs (Host.tla); histories of SDK calls executed on the real SDK -> real message bytes -> real controller are validated by TLC (HostTrace) against the direct evaluation; failing histories are shrunk by delta debugging (real SDK + TLC in the loop)",
     text="Host programs built from if_eq/ne/lt/ge/ez/nz (context and callback forms), loop, loop_body, foreach, enumerate, loop_until with an at-most exit condition and cleanup, add with and without modulus and with future operands, arrays with initial values (all-equal, mixed, undefined), measurement into new arrays, array entries (constant and loop-variable indices) and registers, nested to depth 3 and split over 1-3 flushes with host reads early and late, are executed through the real pipeline; per flush the controller arrays and the executed gate/measurement log, per read the value the real handle returns, are compared by TLC with Host!Flush. Directed cases cover every comparison x form x truth value, nested loops reusing indices, every placement of an extra flush.",
     note="Trusted: TLC, Host.tla (my reading of 'executing the program directly'), harness/sdkrun.py (annotates programs with the SDK's address/qubit-id choices). Register futures are only exercised inside the subroutine that creates them; their cross-flush defects are listed as known findings. Three defects found and repaired in /repo (e3c4e1a, 774427d, 416ed1e)."),
+ "C06": dict(
+    engine="c06", category="model_checking", design="5 C06",
+    technique="Host.tla extended with Compile / Commit(obj, valuation) (HostTrace): histories mixing compile, instantiate+commit and flushes on one connection are executed on the real SDK/controller and validated by TLC; the pre-compiled and the direct flow are also compared with each other, with and without the NV transpiler",
+    text="Commit of an instantiated object is specified as Host!Flush of the same operations with the template values filled in, and compile leaves nothing pending (as a flush). Random histories (1-4 blocks of rotations with template numerators from {0,1,3,16,255}, gates, adds, conditionals, measurements; objects committed at once or after later flushes; a closing flush and array reads) run through the real pipeline in the pre-compiled flow and, where possible, in the direct flow; TLC compares controller arrays, gate log and host reads per flush/commit with the specification; with the NV transpiler the two real flows are compared with each other (gate log, arrays, reads).",
+    note="Trusted: as C05. The missing builder reset in compile() was found by this check and repaired in /repo (622f2fb)."),
 }
 
 REASON_TODO = "check not built yet (work in progress; see DESIGN.md section 9)"
